@@ -193,17 +193,21 @@ def runStage (st : Json) : Except String StageOut := do
     if style == .linear && shapes.length != D then return oomOut "linear without shape"
     let comb := combOf style shapes k L
     let lin := style == .linear
-    let m := mergeT (!arith) lin 0 comb mf dflt r l k t
-    let clash := (mergeT false lin 0 comb mf dflt r l k t).isSome && m.isNone
-    let ideal := mergeT false false dflt comb mf dflt r l k t
-    let lastAttr := !clash && !(match m, ideal with | some a, some b => decide (a = b) | none, none => true | _, _ => false)
+    -- since /repo COMMIT:C14-05 / COMMIT:C14-06 the active-range bookkeeping of the tuple / pair
+    -- styles no longer raises and a merged fiber takes default and shape from a payload fiber
+    -- that has elements: the code is the data path with the tensor's own default
+    let m := mergeT false false dflt comb mf dflt r l k t
+    let was := mergeT (!arith) lin 0 comb mf dflt r l k t      -- the code before those repairs
+    let clash := false
+    let lastAttr := false
+    let formerly := !(match m, was with | some a, some b => decide (a = b) | none, none => true | _, _ => false)
     let c := content dflt _ t
     -- flatten = merge with the raising merge function: it raises iff two POINTS get the same image
     let exp := mergeSpec comb mf dflt k l c
     let collide := (flattenSpec comb k l c).isNone
     let tags := [op, (fStrD st "style" ""), s!"k{k}", s!"levels{L}", s!"r{r}"] ++
       (if op == "merge" then [fStrD st "mf" "sum"] else []) ++
-      (if collide then ["collision"] else []) ++ (if clash then ["actRangeClash"] else []) ++ (if lastAttr then ["lastChildAttrs"] else []) ++ (if m.isNone then ["modelErr"] else []) ++ treeTags dflt _ t
+      (if collide then ["collision"] else []) ++ (if clash then ["actRangeClash"] else []) ++ (if lastAttr then ["lastChildAttrs"] else []) ++ (if formerly then ["repaired:C14-05/06"] else []) ++ (if m.isNone then ["modelErr"] else []) ++ treeTags dflt _ t
     pure (judge (r + 1 + k) m dflt exp obs tags)
   | "unflatten" =>
     let k ← fNat st "k"
